@@ -247,7 +247,7 @@ def applyTopo (cfg : Cfg) (s : RState) (payload : Bytes) : R RState := do
         let rem ← remaining
         guard (decide (h.count * elemSizeInt h.valEnc ≤ rem))
         readInts (elemSizeInt h.valEnc) h.count) else pure []) p1
-    let total := if h.valence = 0 then valences.sum else (h.valence * h.count) % 2 ^ 32
+    let total := if h.valence = 0 then valences.sum else h.valence * h.count
     let w := elemSizeInt h.hEnc
     if p2.length ≠ total * w then invalid                         -- "number of remaining bytes incorrect"
     else if h.entity = topoEntityEdge then
